@@ -19,6 +19,16 @@ theorem isDigit_ne_plus {c : Char} (h : isDigit c = true) : c ≠ '+' := by
 theorem isDigit_ne_dot {c : Char} (h : isDigit c = true) : c ≠ '.' := by
   rintro rfl; revert h; decide
 
+theorem takeWhile_all {α} (p : α → Bool) (l : List α) (h : ∀ x ∈ l, p x = true) : l.takeWhile p = l := by
+  induction l with
+  | nil => rfl
+  | cons a l ih => simp [List.takeWhile, h a (by simp), ih (fun x hx => h x (by simp [hx]))]
+
+theorem dropWhile_all {α} (p : α → Bool) (l : List α) (h : ∀ x ∈ l, p x = true) : l.dropWhile p = [] := by
+  induction l with
+  | nil => rfl
+  | cons a l ih => simp [List.dropWhile, h a (by simp), ih (fun x hx => h x (by simp [hx]))]
+
 -- ------------------------------------------------------------------ decimal numbers
 theorem digitsLE_lt (n : Nat) : ∀ d ∈ digitsLE n, d < 10 := by
   fun_induction digitsLE n with
